@@ -487,6 +487,12 @@ def replay_chunks(rep: Report, res, cs: int, use_default: bool) -> int:
         real = real_chunks(r["L"], None if use_default else cs)
         n += 1
         rep.evaluations += 1
+        if n == 1 or r["L"] == 2 * cs:
+            # tampered edge: an altered model sequence must NOT compare equal to the real one
+            bad = [dict(x) for x in model]
+            bad[-1]["m"] = 1 - bad[-1]["m"]
+            if real == bad:
+                raise tlc.MachineryError("chunk-sequence comparison accepts a tampered model edge")
         if real != model:
             rep.violation(
                 f"kitty:get_chunks:chunk-sequence:{chunk_class(r['L'], cs)}",
@@ -747,7 +753,7 @@ def main(rep: Report, replay: dict | None) -> None:
     rep.extra["corrupted_traces_rejected"] = rejected
     rep.extra["kitty_payload_boundary_classes"] = bc
     rep.extra["renders"] = len(cases)
-    if not replay:
+    if not replay and not rep.violations:
         for need in ("raw:L=k*CS", "raw:L=k*CS-eps", "raw:L=k*CS+eps", "raw:L<CS", "raw:L=k*CS+r",
                      "z:L=k*CS", "z:L=k*CS-eps", "z:L=k*CS+eps"):
             if not bc.get(need):
